@@ -491,6 +491,72 @@ let () =
                   | Some r -> "fail:" ^ r
                   | None -> if !known then "fail:evict-then-append" else "ok") in
         Mlutil.print_model model verdict
+    | "conc", [capf; poolf; nf; kf; trialsf] ->
+        (* after each real restart the FIRST accesses to mailbox 0 are k overlapping reads, then one mutation.
+           Reads do not change the ordered map (reopen_transparent / ops_refine_ordered_map): every reader must
+           see exactly the listing; the overlap itself is not in the model (C09 owns store concurrency). *)
+        let ctx = mk_ctx capf poolf in
+        let n = int_of_string nf and k = int_of_string kf and trials = int_of_string trialsf in
+        let short l =
+          let cnt = if l = "-" || l = "" then 0 else List.length (split ';' l) in
+          let h = ref 2166136261 in
+          String.iter (fun c -> h := ((!h lxor Char.code c) * 16777619) land 0xFFFFFFFF) l;
+          Printf.sprintf "%d:%08x" cnt !h in
+        let cadd mb j = OAdd (mb, "c" ^ string_of_int j, 1600000000 + j, "c" ^ string_of_int j ^ "\r\n", 1) in
+        let setup = List.init n (fun j -> cadd 0 j) @ List.init 3 (fun j -> cadd 3 j) in
+        let muts = List.init trials (fun t -> if t mod 2 = 1 then cadd 0 (n + t) else OSeen (0, t)) in
+        (* the model *)
+        let st = ref (init_st ctx) in
+        List.iter (fun o -> st := snd (do_op ctx !st o)) setup;
+        let sstate stx = String.concat "|" (List.mapi (fun i _ -> short (listing ctx stx i)) ctx.pool) in
+        let model = ref ["init=" ^ sstate !st] in
+        List.iteri (fun t o ->
+          let rd = short (listing ctx !st 0) in
+          let (r, st') = do_op ctx !st o in
+          st := st';
+          model := !model @ [Printf.sprintf "t%d=%s/%s/%s" t (String.concat "," (List.init k (fun _ -> rd))) r (sstate !st)]) muts;
+        (* the oracle: the ordered map on strings *)
+        let np = List.length ctx.pool in
+        let ab = Array.make np [] and nadd = Array.make np 0 in
+        let set_seen m = match split '.' m with
+          | [h; a; b; c; _; e] -> String.concat "." [h; a; b; c; "1"; e] | _ -> m in
+        let apply o = match o with
+          | OAdd (mb, tok, date, seed, rep) ->
+              let b = body seed rep in
+              let m = String.concat "." [ "k" ^ string_of_int nadd.(mb); hexs (mbname ctx mb); hexs (info tok date);
+                                          string_of_int (String.length b); "0"; digest b ] in
+              ab.(mb) <- spec_add ctx ab.(mb) m; nadd.(mb) <- nadd.(mb) + 1; "k" ^ string_of_int (nadd.(mb) - 1)
+          | OSeen (mb, h) ->
+              let hs = "k" ^ string_of_int h in
+              if List.exists (fun m -> handle_of_msg m = hs) ab.(mb) then begin
+                ab.(mb) <- List.map (fun m -> if handle_of_msg m = hs then set_seen m else m) ab.(mb); "ok" end
+              else "notexist"
+          | _ -> "-" in
+        let lst mb = if ab.(mb) = [] then "-" else String.concat ";" ab.(mb) in
+        let ostate () = String.concat "|" (List.init np (fun i -> short (lst i))) in
+        List.iter (fun o -> ignore (apply o)) setup;
+        let failure = ref None in
+        let fail r = if !failure = None then failure := Some r in
+        if field outs "init" <> ostate () then fail "state-differs-from-ordered-map-before-the-restarts";
+        List.iteri (fun t o ->
+          let f = field outs (Printf.sprintf "t%d" t) in
+          let rd = short (lst 0) in
+          match split '/' f with
+          | [readers; mr; stt] ->
+              let rs = split ',' readers in
+              if List.exists (fun x -> has_sub x "PANIC") rs || has_sub mr "PANIC" then fail "operation-panicked-on-the-reopened-store"
+              else if List.length rs <> k || List.exists (fun x -> x <> rd) rs then
+                fail "overlapping-first-readers-of-the-reopened-store-do-not-all-see-the-listing"
+              else begin
+                let r = apply o in
+                if mr <> r then fail "operation-result-differs-from-ordered-map"
+                else if stt <> ostate () then fail "state-after-restart-differs-from-ordered-map"
+              end
+          | _ -> fail ("incarnation-died:" ^ f)) muts;
+        let verdict = match outs with
+          | ["POOL-DIFFERS"] -> "fail:hash-of-pool-names-changed"
+          | _ -> (match !failure with Some r -> "fail:" ^ r | None -> "ok") in
+        Mlutil.print_model !model verdict
     | "new", [capf; poolf] ->
         (* store construction died at its MkdirAll; a second file.New: an empty store that accepts mail
            (in the model the root mail directory always exists: New is Stat + MkdirAll, idempotent) *)
